@@ -1,3 +1,4 @@
+import TantivyModel.Proofs.PureFns
 import TantivyModel.Proofs.Columnar.Mapping
 import TantivyModel.Proofs.Columnar.LinearColumn
 import TantivyModel.Proofs.Columnar.RangeU32
@@ -761,5 +762,28 @@ theorem C08_monotonic_mappings :
 example : (Gen.Col.f64_to_u64 0x8000000000000000#64).toNat + 1 = (Gen.Col.f64_to_u64 0#64).toNat := by decide
 example : (Gen.Col.f64_to_u64 0xFFF0000000000000#64).toNat < (Gen.Col.f64_to_u64 0xBFF0000000000000#64).toNat := by decide
 example : Gen.Col.i64_to_u64 0x8000000000000000#64 = 0#64 := by decide
+
+/-! ### functions translated from the Rust source on every run (`Gen/PureFns.lean`)
+
+`bitpacker::compute_num_bits`, the zig-zag code of the columnar writer's in-memory
+column operations, and two bit helpers of the optional index. The definitions are the source
+text, mechanically translated; these theorems are re-checked against it on every run. -/
+section SrcFns
+open TantivyModel.Gen.Fn TantivyModel.PureFns
+
+theorem C08_src_compute_num_bits (n : BitVec 64) :
+    n.toNat < 2 ^ (compute_num_bits n).toNat ∧ (compute_num_bits n).toNat ≤ 64
+    ∧ (n ≠ 0#64 → (compute_num_bits n).toNat ≤ 56 → 2 ^ ((compute_num_bits n).toNat - 1) ≤ n.toNat) :=
+  ⟨PureFns.compute_num_bits_fits n, PureFns.compute_num_bits_le n, PureFns.compute_num_bits_minimal n⟩
+
+theorem C08_src_zig_zag_bijection (n : BitVec 64) :
+    decode_zig_zag (encode_zig_zag n) = n ∧ encode_zig_zag (decode_zig_zag n) = n :=
+  ⟨PureFns.decode_encode_zig_zag n, PureFns.encode_decode_zig_zag n⟩
+
+theorem C08_src_dense_bit_helpers (w : BitVec 64) (n : BitVec 16) (h : n.toNat < 64) :
+    get_bit_at w n = w.getLsbD n.toNat := PureFns.get_bit_at_eq w n h
+
+example : encode_zig_zag (-3#64) = 5#64 ∧ decode_zig_zag 5#64 = -3#64 := by decide
+end SrcFns
 
 end TantivyModel.C08
